@@ -1043,7 +1043,11 @@ class ApertureStats:
         The centroid is computed as the center of mass of the unmasked
         pixels within the aperture.
         """
-        origin = np.transpose((self.bbox_xmin, self.bbox_ymin))
+        # the cutouts are clipped to the image, so their origin is the
+        # start of the overlap slices, not the aperture bounding box
+        origin = np.array([(np.nan, np.nan) if slc_large is None
+                           else (slc_large[1].start, slc_large[0].start)
+                           for slc_large, _ in self._overlap_slices])
         return self.cutout_centroid + origin
 
     @lazyproperty
